@@ -80,6 +80,12 @@ func (w *World) buildSpecChunks() {
 		for _, m := range sortDeclRe.FindAllStringSubmatch(blk, -1) {
 			c.syms = append(c.syms, m[1])
 		}
+		for _, m := range datatypeRe.FindAllStringSubmatch(blk, -1) {
+			c.syms = append(c.syms, m[1])
+		}
+		for _, m := range ctorRe.FindAllStringSubmatch(blk, -1) {
+			c.syms = append(c.syms, m[1], m[2])
+		}
 		specChunks = append(specChunks, c)
 	}
 }
